@@ -65,6 +65,39 @@ def _slot_guarantees_comment() -> bool:
     return True
 
 
+def _skip_signature(fn, upto_line=None):
+    """Keyword arguments of the successive context.skip_ws(...) calls of a function, in source order."""
+    import ast
+    from .model import walk_fn, text
+    calls = [n for n in walk_fn(fn.node) if isinstance(n, ast.Call) and text(n.func) == "context.skip_ws"]
+    calls.sort(key=lambda c: (c.lineno, c.col_offset))
+    if upto_line is not None:
+        calls = [c for c in calls if c.lineno <= upto_line]
+    return [sorted((k.arg, text(k.value)) for k in c.keywords) for c in calls]
+
+
+def _same_navigation(check_cls: str, n_skips: int) -> bool:
+    """The dependent check walks `# <ws> directive <ws> argument` with the same skip_ws flags as the primary
+    (otherwise a layout the primary accepts - e.g. a comment between the directive and its argument - puts the
+    check's index on another token than the one the primary validated)."""
+    import ast
+    from .model import walk_fn, text
+    prog = _prog()
+    prim = prog.method("IsPreprocessorStatement", "run")
+    chk = prog.method(check_cls, "run")
+    if prim is None or chk is None:
+        return False
+    disp = [n for n in walk_fn(prim.node) if isinstance(n, ast.Call) and isinstance(n.func, ast.Name) and n.func.id == "checker"]
+    if not disp:
+        return False
+    a = _skip_signature(prim, disp[0].lineno)
+    b = _skip_signature(chk)
+    if check_cls == "CheckPreprocessorProtection" and len(b) >= 3:
+        # its third skip in source order belongs to the #endif branch; the one in front of the macro name is the last
+        b = b[:2] + [b[-1]]
+    return len(a) >= n_skips and len(b) >= n_skips and a[:n_skips] == b[:n_skips]
+
+
 def _define_raises_unless_rparen() -> bool:
     import ast
     from .model import walk_fn, text
@@ -75,7 +108,7 @@ def _define_raises_unless_rparen() -> bool:
     for n in walk_fn(fn.node):
         if isinstance(n, ast.If) and "RPARENTHESIS" in text(n.test) and text(n.test).startswith("not ") \
                 and n.body and isinstance(n.body[0], ast.Raise) and "CParsingError" in text(n.body[0]):
-            return True
+            return _same_navigation("CheckPreprocessorDefine", 3)
     return False
 
 
@@ -92,7 +125,7 @@ def _include_raises_unless_more_than() -> bool:
             for n in walk_fn(cp.node))
     b = any(isinstance(n, ast.If) and text(n.test).startswith("not ") and n.body and isinstance(n.body[0], ast.Raise)
             for n in walk_fn(ci.node))
-    return a and b
+    return a and b and _same_navigation("CheckPreprocessorInclude", 3)
 
 
 add("C05", "R-5.4", "rules/check_comment_line_len.py::CheckCommentLineLen.run::while[kinds=COMMENT,MULT_COMMENT]",
